@@ -74,14 +74,24 @@ impl<'ast> SubsumedBy<'ast> for UnifType<'ast> {
                     var_levels_data,
                 },
             ) => {
-                let mut prev_row_typ: Option<&UnifType<'_>> = None;
-                for row in rrows.iter() {
-                    match row {
-                        RecordRowsElt::Row(a) => {
-                            let row_result =
-                                a.typ
-                                .clone()
-                                .subsumed_by(*type_fields.clone(), state, ctxt.clone());
+                let mut prev_row_typ: Option<UnifType<'_>> = None;
+                // We can't simply iterate over `rrows`: the tail of a row type might be a
+                // unification variable that has already been assigned, possibly to more rows (for
+                // example after several projections `r.foo` of the same unannotated `r`). We walk
+                // the rows manually and resolve each tail to its root before looking at it.
+                let mut current = rrows.into_root(state.table);
+
+                loop {
+                    match current {
+                        UnifRecordRows::Concrete {
+                            rrows: RecordRowsF::Extend { row, tail },
+                            ..
+                        } => {
+                            let row_result = (*row.typ).clone().subsumed_by(
+                                *type_fields.clone(),
+                                state,
+                                ctxt.clone(),
+                            );
 
                             // One way that this row can fail to typecheck is if the record has rows with
                             // differing types. In that case, the dict's field type will unify with the
@@ -95,23 +105,29 @@ impl<'ast> SubsumedBy<'ast> for UnifType<'ast> {
                             // checked successfully and this one failed.
                             match (row_result, prev_row_typ) {
                                 (Err(_), Some(prev_ty)) => {
-                                     Err(Box::new(UnifErrorKind::InhomogeneousRecord { row_a: prev_ty.clone(), row_b: a.typ.clone() }))
+                                    Err(Box::new(UnifErrorKind::InhomogeneousRecord {
+                                        row_a: prev_ty,
+                                        row_b: (*row.typ).clone(),
+                                    }))
                                 }
                                 (x, _) => x,
                             }?;
-                            prev_row_typ = Some(a.typ);
+                            prev_row_typ = Some(*row.typ);
+                            current = tail.into_root(state.table);
                         }
-                        RecordRowsElt::TailUnifVar { id, .. } =>
-                        // We don't need to perform any variable level checks when unifying a free
-                        // unification variable with a ground type
-                        // We close the tail because there is no guarantee that
-                        // { a : Number, b : Number, _ : a?} <= { _ : Number}
-                        {
+                        UnifRecordRows::UnifVar { id, .. } => {
+                            // `id` is a root, thus an unassigned variable.
+                            //
+                            // We don't need to perform any variable level checks when unifying a free
+                            // unification variable with a ground type
+                            // We close the tail because there is no guarantee that
+                            // { a : Number, b : Number, _ : a?} <= { _ : Number}
                             state
                                 .table
-                                .assign_rrows(id, UnifRecordRows::concrete(RecordRowsF::Empty))
+                                .assign_rrows(id, UnifRecordRows::concrete(RecordRowsF::Empty));
+                            break;
                         }
-                        RecordRowsElt::TailConstant(id) => {
+                        UnifRecordRows::Constant(id) => {
                             let checked = UnifType::Concrete {
                                 typ: TypeF::Dict {
                                     type_fields: type_fields.clone(),
@@ -125,7 +141,7 @@ impl<'ast> SubsumedBy<'ast> for UnifType<'ast> {
                                 inferred: checked,
                             })?
                         }
-                        _ => (),
+                        UnifRecordRows::Concrete { .. } => break,
                     }
                 }
                 Ok(())
